@@ -103,6 +103,43 @@ def check_case(pat_idx, target, existing, overwrite, var_map, explicit):
         shutil.rmtree(root, ignore_errors=True)
 
 
+def same_basename_case(order):
+    """two templates with the same file name in different sub-directories, both used in one process, in the given order"""
+    from zorg.service.templates import init_from_template
+
+    root = Path(tempfile.mkdtemp(prefix="zorgverif-c16s-"))
+    try:
+        zdir = root / "org"
+        tmpls = {"work/log.zot": "# work log template\n\n## Work log {{ name }}\n\n- work item of {{ name }}\n\n",
+                 "home/log.zot": "# home log template\n\n## Home log {{ name }}\n\n- home item of {{ name }}\n\n",
+                 "log.zot": "# top log template\n\n## Top log {{ name }}\n\n\n"}
+        for n, t in tmpls.items():
+            (zdir / n).parent.mkdir(parents=True, exist_ok=True)
+            (zdir / n).write_text(t)
+        pats = [(r"^work/(?P<name>[a-z]+)\.zo$", "work/log.zot"), (r"^home/(?P<name>[a-z]+)\.zo$", "home/log.zot"), (r"^(?P<name>top[a-z]*)\.zo$", "log.zot")]
+        pmap = {re.compile(p): Path(t) for p, t in pats}
+        targets = {"work": "work/alpha.zo", "home": "home/beta.zo", "top": "topic.zo"}
+        for which in order:
+            rel = targets[which]
+            try:
+                init_from_template(zdir, pmap, Path(rel), template=None, var_map={}, should_overwrite_existing=False)
+            except Exception as e:
+                return f"init_from_template raised {type(e).__name__}: {str(e)[:200]}"
+            tname, m = next((t, re.match(p, rel)) for p, t in pats if re.match(p, rel))
+            lines = tmpls[tname].split("\n")
+            k = next(i for i, ln in enumerate(lines) if not ln.strip())
+            body = "\n".join(ln[1:] if ln.startswith("## ") else ln for ln in lines[k + 1:])
+            import jinja2
+
+            want = jinja2.Environment().from_string(body).render(m.groupdict())
+            got = (zdir / rel).read_text() if (zdir / rel).exists() else None
+            if got != want:
+                return f"{rel} (templates used in the order {order}): got {got!r:.120} expected the rendering of {tname}: {want!r:.120}"
+        return None
+    finally:
+        shutil.rmtree(root, ignore_errors=True)
+
+
 def configurations(tier, seed):
     rng = random.Random(seed * 19 + 4)
     n = 150 if tier == "quick" else 3000
@@ -123,11 +160,21 @@ def configurations(tier, seed):
             fails.append({**case, "error": err})
         if i < 2:
             samples.append(case)
+    import itertools as _it
+
+    for order in _it.permutations(["work", "home", "top"]):
+        err = same_basename_case(list(order))
+        n += 1
+        if err:
+            fails.append({"pat_idx": [], "target": "same-basename templates " + "/".join(order), "existing": None, "overwrite": False, "var_map": {}, "explicit": None, "error": err, "order": list(order)})
     return {"name": "configurations", "bound": f"{n} random (pattern map of 0-4 of 7 overlapping patterns (two of them not anchored) in random order, 11 targets incl. sub-directories and extension-less names, existing / empty / missing target, overwrite flag, 4 variable maps, explicit template or none)",
             "evaluations": n, "distinct_nontrivial": nontriv, "failures": fails, "samples": samples, "replay_fn": "replay_case"}
 
 
 def replay_case(case):
+    if case.get("order"):
+        err = same_basename_case(case["order"])
+        return err is None, err or "ok"
     c = {k: case[k] for k in ("pat_idx", "target", "existing", "overwrite", "var_map", "explicit")}
     err = check_case(**c)
     return err is None, err or "ok"
